@@ -10,8 +10,10 @@ InputsAll == {
   I("label64", 443, "https", FALSE, ""), I("svcbTooLong", 8443, "https", FALSE, ""),
   I("hostdot", 443, "https", TRUE, ""), I("hostdotport", 8443, "https", TRUE, ""), I("httpsdot", 443, "https", TRUE, ""), I("foodotport", 123, "foo", TRUE, ""),
   I("ip4", 443, "https", TRUE, "lit4"), I("ip4port", 8443, "https", TRUE, "lit4"), I("ip6", 443, "https", TRUE, "lit6"),
+  \* a port written with leading zeros is the same number
+  I("host08443", 8443, "https", TRUE, ""), I("https008443", 8443, "https", TRUE, ""), I("host0443", 443, "https", TRUE, ""),
   I("localhost", 443, "https", TRUE, "loopback") }
-InputsCore == { i \in InputsAll : i.id \in {"host", "host8443", "foo123", "host80", "hostdotport", "httpsdot"} }
+InputsCore == { i \in InputsAll : i.id \in {"host", "host8443", "foo123", "host80", "hostdotport", "httpsdot", "host08443", "https008443", "host0443"} }
 HAll == {"absent", "nx", "servfail", "refused", "notauth", "ext16", "ext256", "ext259", "aliasdot", "svcdot", "svct", "svcself", "unsorted", "poisoned", "cnamed", "loop", "chain1", "chain2",
          "chain3", "chain4", "chain6"}
 HSome == {"absent", "svct", "svcself", "chain2"}
